@@ -93,7 +93,7 @@ typedef struct {
 	stack 		*		used_footnotes;
 	stack 		*		inline_footnotes_to_free;
 	struct fn_holder *	footnote_hash;
-	short				footnote_being_printed;
+	int					footnote_being_printed;
 
 	int 				random_seed_base;
 
@@ -105,13 +105,13 @@ typedef struct {
 	stack 		*		used_citations;
 	stack 		*		inline_citations_to_free;
 	struct fn_holder *	citation_hash;
-	short				citation_being_printed;
+	int					citation_being_printed;
 	char 		*		bibtex_file;
 
 	stack 		*		used_glossaries;
 	stack 		*		inline_glossaries_to_free;
 	struct fn_holder *	glossary_hash;
-	short				glossary_being_printed;
+	int					glossary_being_printed;
 
 	stack 		*		used_abbreviations;
 	stack 		*		inline_abbreviations_to_free;
@@ -246,10 +246,10 @@ void print_token_tree_raw(DString * out, const char * source, token * t);
 
 char * url_accept(const char * source, size_t start, size_t max_len, size_t * end_pos, bool validate);
 
-void abbreviation_from_bracket(const char * source, scratch_pad * scratch, token * t, short * num);
-void citation_from_bracket(const char * source, scratch_pad * scratch, token * t, short * num);
-void footnote_from_bracket(const char * source, scratch_pad * scratch, token * t, short * num);
-void glossary_from_bracket(const char * source, scratch_pad * scratch, token * t, short * num);
+void abbreviation_from_bracket(const char * source, scratch_pad * scratch, token * t, int * num);
+void citation_from_bracket(const char * source, scratch_pad * scratch, token * t, int * num);
+void footnote_from_bracket(const char * source, scratch_pad * scratch, token * t, int * num);
+void glossary_from_bracket(const char * source, scratch_pad * scratch, token * t, int * num);
 
 meta * meta_new(const char * source, size_t start, size_t len);
 void meta_set_value(meta * m, const char * value);
